@@ -43,6 +43,9 @@ def sysLoop (fuel : Nat) (cs : List SysComp) (M : Rat) : Nat → Rat → Oracle 
         | .error e => .error e
         | .ok (rest, t2, ω) => .ok ((i, m) :: rest, .choice c :: t ++ t2, ω)
 
+/-- `System.generable` (`system.py:135-142`): the mass estimate succeeded and every component is generable -/
+def sysGenerable (estim : Bool) (cs : List SysComp) : Bool := estim && cs.all (·.generable)
+
 /-- `System.generator`: refuses a system that is not generable -/
 def sysGenerator (fuel loopFuel : Nat) (generable : Bool) (cs : List SysComp) (M : Rat) (ω : Oracle) :
     G (List Member × Trace × Oracle) :=
